@@ -76,7 +76,7 @@ RULE = (
     "an empty block; for append pairs the pair of shapes plus offset."
 )
 SCOPE = {
-    "quick": {"G1": 7, "K1": 3, "G2": 5, "NA": 6, "NR": 2500, "ALL_AB": 10},
+    "quick": {"G1": 7, "K1": 3, "G2": 5, "NA": 12, "NR": 9000, "ALL_AB": 12},
     "thorough": {"G1": 10, "K1": 3, "G2": 7, "NA": 40, "NR": 30000, "ALL_AB": 25},
 }
 EXHAUSTIVE_SCOPE = {t: f"layouts: genome {s['G1']}, <= {s['K1']} blocks; append pairs: genome {s['G2']}, <= 2 blocks; all slice bounds for "
